@@ -119,7 +119,7 @@ fn c15_budget_lockstep_run_then_segment2() {
     lockstep_run_then_segment::<2, 67>();
 }
 
-// @check id=C15 tier=thorough cap=1500 mem=28 solo=1 role=lockstep_run_then_segment
+// @check id=C15 tier=thorough cap=1500 mem=28 solo=1 fallback=c15_native_witness_search_segment3 role=lockstep_run_then_segment
 // @fns parser::validate_parser_budget
 // @bound as above with every segment of 3 symbols (68 characters): 473 s / 19 GB measured in the design probe
 // @stubs alloc::fmt::format -> String::new() (error messages only)
@@ -170,4 +170,29 @@ fn c15_budget_refuses_over_long_input_before_scanning() {
     kani::cover!(s.len() == MAX_KIP_INPUT_LEN + 1, "one byte over the limit");
     kani::cover!(r.is_err(), "refused");
     std::mem::forget(r);
+}
+
+// Native witness search (replay fallback, see ./check replay_cex): when the solver reports the
+// 3-symbol lock-step assertion FAILED but trace generation does not fit in memory, this plain test
+// enumerates the same 8^3 segments against the real guard and the same reference lexer and panics
+// with the first concrete disagreement. It is never used to *decide* anything.
+#[cfg(test)]
+#[test]
+fn c15_native_witness_search_segment3() {
+    let alphabet: [u8; 8] = [b'"', b'/', b'\\', b'\n', b'\r', b'a', b')', b']'];
+    for a in alphabet {
+        for b in alphabet {
+            for c in alphabet {
+                let seg = [a, b, c];
+                let mut bytes = vec![b'('; 64];
+                bytes.extend_from_slice(&seg);
+                bytes.push(b'(');
+                let s = std::str::from_utf8(&bytes).unwrap();
+                let r = validate_parser_budget(s);
+                let (in_str, in_c, depth, _, _) = reference::<3>(&seg, 64);
+                let code = !in_str && !in_c;
+                assert!(r.is_err() == (code && depth == 64), "lock-step broken for segment {:?}: guard says {}, reference lexer says in_string={in_str} in_comment={in_c} depth={depth}", String::from_utf8_lossy(&seg), if r.is_err() { "refuse" } else { "accept" });
+            }
+        }
+    }
 }
